@@ -254,17 +254,46 @@ def mk_join(it, mode='half-outer', source_delete=True, agg='sum', target_key=Tru
         db = Opaque('KVFile', 'db%d' % len(dbs))
         db.ctor_args = (tuple(a), dict(k))
         dbs.append(db)
+        from pyvc.symex import Ev
+        it_.emit(Ev('Call', target='KVFile', method='__call__', args=(), kwargs={}, result=db, objs=()))
         return db
-    m.attrs['KVFile'] = UFunc('KVFile', KV, True)
+    m.attrs['KVFile'] = UFunc('KVFile', KV, False)
+    func_dbs = dbs
     j = m.attrs['join']
     if fields is None:
         fields = PyDict({'x': PyDict({'name': 'v', 'aggregate': agg})})
+    def shape(v):
+        return ('d', tuple((k, shape(x)) for k, x in v.d.items())) if isinstance(v, PyDict) else \
+            ('l', tuple(shape(x) for x in v.items)) if isinstance(v, PyList) else ('v', id(v) if not isinstance(v, (str, int, bool, type(None))) else v)
+    given = shape(fields)
     func = it.call(j, ['src', PyList([key_names[0]]), 'tgt', PyList([key_names[1]]) if target_key else None],
                    dict(fields=fields, mode=mode, source_delete=source_delete))
+    from pyvc.api import check
+    # the caller's field specification is read, never completed in place: the same spec given to a second join reads the same
+    check(it, 'callers-field-specification-left-as-given', shape(fields) == given)
+    # the key index and the field mapping belong to ONE run: nothing is opened when the step is built, and the REAL prologue of
+    # func (run here with the two phases stubbed out) gives the run its own two stores and its own copy of the specified mapping
+    check(it, 'no-index-store-is-opened-before-a-run-starts', not dbs)
+    real_pd, real_nri = func.env.vars.get('process_datapackage'), func.env.vars.get('new_resource_iterator')
+    func.env.vars['process_datapackage'] = UFunc('process_datapackage', lambda it_, a, k: None, False)
+    func.env.vars['new_resource_iterator'] = UFunc('new_resource_iterator', lambda it_, a, k: PyList([]), False)
+    pkgw = Opaque('PackageWrapper', 'prologue_package')
+    pkgw.attrs['pkg'] = Opaque('Package', 'prologue_pkg')
+    pkgw.attrs['pkg'].attrs['descriptor'] = Opaque('descriptor', 'prologue_descriptor')
+    n0 = len(it.path.events)
+    it.run_generator(it.call(func, [pkgw]))
+    del it.path.events[n0:]            # (the trace of the stubbed phases is not part of what the stage contracts look at)
+    func.env.vars['process_datapackage'], func.env.vars['new_resource_iterator'] = real_pd, real_nri
+    check(it, 'a-run-opens-exactly-its-two-index-stores', len(dbs) == 2 and func.env.lookup('db_keys_usage') is dbs[0] and
+          func.env.lookup('db') is dbs[1])
+    if len(dbs) != 2:
+        from pyvc.api import Unsupported
+        raise Unsupported('CONTRACT-MAPPING join: the run prologue opened %d stores' % len(dbs))
     usage, db = dbs[0], dbs[1]
+    func.stores_opened = dbs
+    check(it, 'callers-field-specification-left-as-given-by-a-run-too', shape(fields) == given)
     # T6 is assumed for the store AS THE LIBRARY CREATES IT BY DEFAULT (values pickled: what is read back is equal to what was stored,
     # whatever its type -- dates with microseconds, Decimals, tuples, non-string keys).  Another serializer is another contract.
-    from pyvc.api import check
     check(it, 'index-stores-are-created-with-the-default-lossless-serializer', all(d.ctor_args == ((), {}) for d in dbs))
     return func, usage, db
 
@@ -590,8 +619,11 @@ def sym_join_func(vc):
         it.run_generator(it.call(func, [package]))
         evs = it.path.events[n0:]
         names = [x for x in effect_names(evs) if x not in ('Exhausted',)]
-        check(it, 'descriptor-phase-then-package-then-the-joined-streams-then-both-stores-closed',
-              names == ['process_datapackage', 'Yield', 'new_resource_iterator', 'YieldFrom', 'db1.close', 'db0.close'])
+        # (this is the second run of the step object in this harness: it opens ITS OWN two stores, before anything else, and closes
+        # those -- not the ones of the run before)
+        check(it, 'own-stores-opened-then-descriptor-phase-then-package-then-the-joined-streams-then-both-stores-closed',
+              names == ['KVFile', 'KVFile', 'process_datapackage', 'Yield', 'new_resource_iterator', 'YieldFrom', 'db3.close', 'db2.close']
+              and len(func.stores_opened) == 4)
         c = [e for e in evs if e.kind == 'Call' and e.target == 'process_datapackage']
         check(it, 'descriptor-phase-gets-the-packages-own-descriptor', len(c) == 1 and c[0].objs[0] is package.attrs['pkg'].attrs['descriptor'])
         ys = yields_of(evs)
@@ -1052,3 +1084,6 @@ ITEMS = [
     # the caster that runs over the joined rows (results(), dumpers): every declared field is cast and materialised, null when absent
     Item('schema_validator', lazy_sym('C14', 'sym_schema_validator'), [], 'dataflows/base/schema_validator.py::schema_validator'),
 ]
+
+from contracts import reuse as _REUSE   # noqa: E402
+ITEMS.append(Item('second-use', None, [('catalogue', _REUSE.nat_second_use_for('C11'))], 'dataflows/processors/join.py::join_aux'))
